@@ -291,6 +291,19 @@ def compare(cases, impl_lines, model_lines, oracle_lines):
 def run_cases(driver, component, cases, with_model=True, extra_env=None):
     text = join_cases(cases)
     impl, oracle, crash = exec_impl(driver, text, extra_env)
+    # a reply may carry what the environment decided (pool hit or miss, ...) after " @@ ":
+    # that part is an INPUT of the model (appended to the op), not an output to compare
+    if any(" @@ " in l for l in impl):
+        in_lines = text.splitlines()
+        out = []
+        for i, l in enumerate(in_lines):
+            if i < len(impl) and " @@ " in impl[i]:
+                rep, ann = impl[i].split(" @@ ", 1)
+                impl[i] = rep
+                out.append(l + " " + ann)
+            else:
+                out.append(l)
+        text = "\n".join(out) + "\n"
     model = exec_model(component, text) if with_model else None
     res = compare(cases, impl, model, oracle)
     return res, crash
